@@ -44,6 +44,7 @@ Check(e) ==
        ELSE IF e.status # st THEN "Verdict." \o e.status \o "_but_problem_is_" \o st
        ELSE IF e.status # "OPTIMAL" THEN ""
        ELSE IF ~e.finite THEN "Point.not_finite"
+       ELSE IF e.huge THEN "Point.too_large_for_a_basic_solution"       \* vertices of these LPs have coordinates below 2000
        ELSE IF PointBad(e.x4, 0) # "" THEN PointBad(e.x4, 0)
        ELSE IF Abs(e.obj4 - cx4) > cslack THEN "Objective.is_not_c_dot_x"
        ELSE IF Abs(e.obj6 - Dec6(o[1], o[2])) > 2 THEN "Objective.is_not_the_optimum"
@@ -52,13 +53,16 @@ Check(e) ==
        IF e.status = "OPTIMAL" THEN
             (IF m = 0 \/ n = 0 THEN ""
              ELSE IF ~e.finite THEN "Point.not_finite"
+             ELSE IF e.huge THEN (IF st # "OPTIMAL" THEN "Verdict.OPTIMAL_but_problem_is_" \o st ELSE "Objective.is_not_the_optimum")
              ELSE IF st # "OPTIMAL" THEN "Verdict.OPTIMAL_but_problem_is_" \o st
              ELSE IF PointBad(e.x4, 1) # "" THEN PointBad(e.x4, 1)
              ELSE IF Abs(e.obj4 - cx4) > cslack + 1 THEN "Objective.is_not_c_dot_x"
              ELSE IF Abs(e.obj6 - Dec6(o[1], o[2])) > 102 THEN "Objective.is_not_the_optimum"
              ELSE "")
        ELSE IF e.status = "FEASIBLE" THEN
-            (IF ~e.finite THEN "Point.not_finite" ELSE PointBad(e.x4, 100))
+            (IF ~e.finite THEN "Point.not_finite"
+             ELSE IF e.huge THEN ""          \* a far-away point on an unbounded ray: finite, but outside the 32-bit projection - not checked
+             ELSE PointBad(e.x4, 100))
        ELSE IF e.status \in {"MAX_ITER", "INFEASIBLE", "UNBOUNDED"} THEN ""
        ELSE "Return.unexpected_status"
 Step == /\ ok /\ l <= Len(T.events) /\ l' = l + 1 /\ UNCHANGED <<tid, orc>>
